@@ -22,6 +22,8 @@ struct Call {
     durable_next: u64,
     incarnation: u64,
     pregenesis: bool,
+    /// length of `head_hist` when the call arrived
+    hist_len: usize,
 }
 
 #[derive(Debug)]
@@ -31,6 +33,9 @@ struct Inner {
     blocks: Mutex<BTreeMap<u64, validator::Block>>,
     pregenesis: HashMap<u64, validator::PreGenesisBlock>,
     calls: Mutex<Vec<Call>>,
+    /// every value the durable head (`persisted.next`) has taken, in order; and where each manager incarnation started
+    head_hist: Mutex<Vec<u64>>,
+    inc_start: Mutex<HashMap<u64, usize>>,
     incarnation: AtomicU64,
     /// persistence mode: 0 immediate, 1 stalled (queue_next_block waits), 2 fail next call
     mode: AtomicU64,
@@ -45,9 +50,24 @@ impl MonEngine {
     fn next(&self) -> u64 {
         self.0.persisted.borrow().next().0
     }
-    fn store(&self, b: validator::Block) {
-        self.0.blocks.lock().unwrap().insert(b.number().0, b.clone());
-        self.0.persisted.send_modify(|p| p.last = Some(Last::from(&b)));
+    /// Appends `b` iff it is exactly the next block; check and append are one atomic step (the side channel and the
+    /// manager's persist task store concurrently on the multi-thread runtime).
+    fn try_store(&self, b: validator::Block) -> bool {
+        let mut blocks = self.0.blocks.lock().unwrap();
+        let mut stored = false;
+        self.0.persisted.send_if_modified(|p| {
+            if p.next().0 != b.number().0 {
+                return false;
+            }
+            p.last = Some(Last::from(&b));
+            stored = true;
+            self.0.head_hist.lock().unwrap().push(p.next().0);
+            true
+        });
+        if stored {
+            blocks.insert(b.number().0, b);
+        }
+        stored
     }
     /// side channel: the durable store jumps ahead by `k` blocks of the canonical chain
     fn jump(&self, chain: &[validator::Block], k: u64) -> u64 {
@@ -55,25 +75,29 @@ impl MonEngine {
         for _ in 0..k {
             let next = self.next();
             let Some(b) = chain.iter().find(|b| b.number().0 == next) else { break };
-            self.store(b.clone());
-            n += 1;
+            if self.try_store(b.clone()) {
+                n += 1;
+            }
         }
         n
     }
     fn prune(&self, first: u64) {
         let mut blocks = self.0.blocks.lock().unwrap();
         let keys: Vec<u64> = blocks.keys().copied().filter(|k| *k < first).collect();
-        for k in keys {
-            blocks.remove(&k);
-        }
-        drop(blocks);
+        let mut pruned = false;
         self.0.persisted.send_if_modified(|s| {
             if s.first.0 >= first || s.next().0 <= first {
                 return false;
             }
             s.first = validator::BlockNumber(first);
+            pruned = true;
             true
         });
+        if pruned {
+            for k in keys {
+                blocks.remove(&k);
+            }
+        }
     }
 }
 
@@ -102,6 +126,7 @@ impl EngineInterface for MonEngine {
             durable_next: want,
             incarnation: self.0.incarnation.load(Ordering::SeqCst),
             pregenesis: matches!(block, validator::Block::PreGenesis(_)),
+            hist_len: self.0.head_hist.lock().unwrap().len(),
         });
         loop {
             match self.0.mode.load(Ordering::SeqCst) {
@@ -118,15 +143,18 @@ impl EngineInterface for MonEngine {
                 _ => break,
             }
         }
-        let want = self.next();
-        if block.number().0 < want {
-            return Ok(());
+        loop {
+            let want = self.next();
+            if block.number().0 < want {
+                return Ok(());
+            }
+            if block.number().0 > want {
+                return Err(anyhow::format_err!("got block {}, want {want}", block.number().0).into());
+            }
+            if self.try_store(block.clone()) {
+                return Ok(());
+            }
         }
-        if block.number().0 > want {
-            return Err(anyhow::format_err!("got block {}, want {want}", block.number().0).into());
-        }
-        self.store(block);
-        Ok(())
     }
     async fn verify_pregenesis_block(&self, _ctx: &ctx::Ctx, block: &validator::PreGenesisBlock) -> ctx::Result<()> {
         self.0.verify_called_for_pregenesis.fetch_add(1, Ordering::SeqCst);
@@ -325,6 +353,8 @@ fn run_case(rep: &mut Report, args: &Args, case: u64, multi: bool) {
         blocks: Mutex::default(),
         pregenesis: fx.chain.iter().filter_map(|b| if let validator::Block::PreGenesis(p) = b { Some((p.number.0, p.clone())) } else { None }).collect(),
         calls: Mutex::default(),
+        head_hist: Mutex::new(vec![first_stored.0]),
+        inc_start: Mutex::default(),
         incarnation: AtomicU64::new(0),
         mode: AtomicU64::new(0),
         verify_called_for_pregenesis: AtomicU64::new(0),
@@ -353,7 +383,8 @@ fn run_case(rep: &mut Report, args: &Args, case: u64, multi: bool) {
         let root = ctx::root();
         for phase in 0..phases {
             let last_phase = phase + 1 == phases;
-            engine.0.incarnation.fetch_add(1, Ordering::SeqCst);
+            let inc = engine.0.incarnation.fetch_add(1, Ordering::SeqCst) + 1;
+            engine.0.inc_start.lock().unwrap().insert(inc, engine.0.head_hist.lock().unwrap().len());
             engine.0.mode.store(0, Ordering::SeqCst);
             engine.0.stop.store(false, Ordering::SeqCst);
             // the monotonicity floors are per manager incarnation (a restart forgets the unpersisted queue)
@@ -548,26 +579,35 @@ fn run_case(rep: &mut Report, args: &Args, case: u64, multi: bool) {
     // ---- offline checks over the call log
     let calls = engine.0.calls.lock().unwrap().clone();
     rep.add("queue_next_block_calls", calls.len() as u64);
-    let mut prev: Option<(u64, u64)> = None; // (incarnation, number)
-    let mut by_number: BTreeMap<u64, validator::PayloadHash> = BTreeMap::new();
+    let mut prev: Option<(u64, u64, usize)> = None; // (incarnation, number, head history length at the call)
+    let mut by_number: BTreeMap<(u64, u64), validator::PayloadHash> = BTreeMap::new();
     let replay = json!({"case": case, "multi": multi});
     for c in &calls {
-        let follows_prev = matches!(prev, Some((inc, n)) if inc == c.incarnation && c.number == n + 1);
-        let at_head = c.number == c.durable_next;
-        if !follows_prev && !at_head {
-            rep.violation("storage-handoff-out-of-order||".to_string(), format!("block {} handed to storage after {:?} while the durable head expects {}", c.number, prev, c.durable_next), replay.clone());
+        // "each submitted block directly follows the previously submitted one or the current durable head": the head the manager
+        // can know of is any value the durable head had between its previous hand-off (or its start) and this call - the side
+        // channel moves the head concurrently and the manager learns of it asynchronously.
+        let hist = engine.0.head_hist.lock().unwrap();
+        let (follows_prev, from) = match prev {
+            Some((inc, n, hl)) if inc == c.incarnation => (c.number == n + 1, hl),
+            _ => (false, *engine.0.inc_start.lock().unwrap().get(&c.incarnation).unwrap_or(&1)),
+        };
+        let in_order = follows_prev || hist[from.saturating_sub(1)..c.hist_len.min(hist.len())].contains(&c.number);
+        drop(hist);
+        if !in_order {
+            rep.violation("storage-handoff-out-of-order||".to_string(), format!("block {} handed to storage after {:?} while the durable head expects {}", c.number, prev.map(|p| (p.0, p.1)), c.durable_next), replay.clone());
         }
         if !valid.contains_key(&(c.number, c.hash)) {
             rep.violation("unverified-block-handed-to-storage||".to_string(), format!("block {} (pregenesis={}) handed to storage is not one of the verified blocks", c.number, c.pregenesis), replay.clone());
         }
-        if let Some(h) = by_number.get(&c.number) {
+        // (a hand-off that never became durable binds nothing across a restart: a certified fork block may follow)
+        if let Some(h) = by_number.get(&(c.incarnation, c.number)) {
             if *h != c.hash {
-                rep.violation("block-substituted||storage".to_string(), format!("two different blocks handed to storage for number {}", c.number), replay.clone());
+                rep.violation("block-substituted||storage".to_string(), format!("two different blocks handed to storage for number {} by one manager incarnation", c.number), replay.clone());
             }
         } else {
-            by_number.insert(c.number, c.hash);
+            by_number.insert((c.incarnation, c.number), c.hash);
         }
-        prev = Some((c.incarnation, c.number));
+        prev = Some((c.incarnation, c.number, c.hist_len));
     }
     // the durable store is a contiguous chain of verified blocks
     let blocks = engine.0.blocks.lock().unwrap();
